@@ -1233,10 +1233,16 @@ func (h *c19H) phaseXerial(payloads []c19PD) {
 
 // ---------------------------------------------------------------- hostile inputs
 
-var c19Digits = regexp.MustCompile(`[0-9]+`)
+var (
+	c19Digits = regexp.MustCompile(`\b[0-9a-fA-Fx]*[0-9][0-9a-fA-Fx]*\b`)
+	c19GotExp = regexp.MustCompile(`\b(got|expected|want|have):? [0-9a-fA-Fx]+\b`)
+)
 
+// c19ErrClass folds numbers and hex values out of an error text so outcome
+// classes stay a small set.
 func c19ErrClass(err error) string {
-	s := c19Digits.ReplaceAllString(err.Error(), "N")
+	s := c19GotExp.ReplaceAllString(err.Error(), "$1 N")
+	s = c19Digits.ReplaceAllString(s, "N")
 	if len(s) > 60 {
 		s = s[:60]
 	}
@@ -2221,6 +2227,19 @@ func TestVerifC19(t *testing.T) {
 		}
 	}
 	r.Set("hostile_outcome_classes", len(h.outcome))
+	{
+		ks := make([]string, 0, len(h.outcome))
+		for k := range h.outcome {
+			ks = append(ks, k)
+		}
+		sort.Strings(ks)
+		step := max(1, len(ks)/40)
+		var ex []string
+		for i := 0; i < len(ks); i += step {
+			ex = append(ex, fmt.Sprintf("%s x%d", ks[i], h.outcome[ks[i]]))
+		}
+		r.Set("hostile_outcome_examples", ex)
+	}
 	r.Set("hostile_returned_data_by_codec", okc)
 	r.Set("hostile_returned_error_by_codec", errc)
 	keys := make([]string, 0, len(h.counts))
